@@ -6,10 +6,18 @@
                               tdma_schedule_set(); it is on air SCHEDULE_AHEAD = 2 frames later
      row_layout r tn          the layout the real-table model of l1sched_mframe_layout(combination, tn) selects
      trx_first L d c fn       frames[fn % period] of layout L gives channel c, burst id 0, in direction d;  trx_owns: channel c, any burst id
+     rx_burst L s fn          the model of l1sched_handle_rx_burst() (sched_trx.c) on a timeslot with layout L and channel states s
+                              (s : list of (lchan type, {active, tdma.num_proc, tdma.num_lost, tdma.last_proc})) for a burst in frame fn:
+                              RxOk rc bid sub dir s' = return code, bi->bid, the handler calls (lchan, fn, bid) made for substituted lost
+                              frames (subst_frame_loss()), the handler call for the burst itself, the states afterwards;
+                              RxOOB / RxDescOOB / RxDivZero = a read outside frames[] / outside l1sched_lchan_desc[] / fn % 0
+     rx_elapsed fn lp         subst_frame_loss(): int elapsed = fn - last_proc with the half-hyperframe correction
+     fn_walk n f              the n frame numbers after f: GSM_TDMA_FN_INC applied 1 .. n times (uint32_t, modulo 2715648)
+     tx_pull L s fn           l1sched_pull_burst(): TxOk br->bid (lchan types whose tx handler was called);  rx_probe: l1sched_handle_rx_probe()
    Frame numbers: every current frame of the hyperframe, 0 <= cur < 2715648 (this contains every 51*26*8 = 10608 cycle and the
    wrap 2715647 -> 0); the frame on air is (cur + 2) mod 2715648. *)
 From Coq Require Import ZArith List Bool.
-From OBB Require Import Base.Range Gen.MframeFw Gen.MframeTrxcon Model.Mframe Proofs.MframeP.
+From OBB Require Import Base.Range Gen.MframeFw Gen.MframeTrxcon Model.Mframe Proofs.MframeP Proofs.MframeRxP.
 Import ListNotations.
 Open Scope Z_scope.
 
@@ -123,3 +131,135 @@ Print Assumptions c11_configured_has_state.
 Theorem c11_configured_only_mask : forall L c, In c (trx_configured L) -> 0 <= c < tx_CHAN_MAX /\ Z.testbit (ly_mask L) c = true.
 Proof. exact configured_only_mask. Qed.
 Print Assumptions c11_configured_only_mask.
+
+(* ================================================================== the consumers of the lookup in sched_trx.c
+   For every layout with frames, EVERY list of channel states and every frame number of the C type (uint32_t). *)
+
+(* no lookup of the downlink path leaves a table: neither frames[(uint8_t)(fn % period)] of l1sched_handle_rx_burst(), nor any
+   frames[GSM_TDMA_FN_INC(bi.fn) % period] of the loop in subst_frame_loss(), nor l1sched_lchan_desc[dl_chan] *)
+Theorem c11_rx_lookups_in_table : forall L s fn, In L tx_layouts -> ly_cfg L <> tx_GSM_PCHAN_NONE -> 0 <= fn < 4294967296 ->
+  exists rc bid sub dir s', rx_burst L s fn = RxOk rc bid sub dir s'.
+Proof. exact rx_in_table. Qed.
+Print Assumptions c11_rx_lookups_in_table.
+
+(* every handler call the downlink path makes for one burst - every substituted one and the one for the burst itself - is for a
+   frame number f whose row frames[f % period] has dl_chan = the called channel and carries that row's dl_bid; all of them go to the
+   channel that owns the burst's own frame, and bi->bid is that frame's dl_bid *)
+Theorem c11_rx_calls_are_layout_frames : forall L s fn rc bid sub dir s',
+  In L tx_layouts -> ly_cfg L <> tx_GSM_PCHAN_NONE -> 0 <= fn < 4294967296 ->
+  rx_burst L s fn = RxOk rc bid sub dir s' ->
+  exists fr0, trx_frame L fn = FrOk fr0 /\ bid = fr_bid DL fr0 /\
+    (dir = None \/ dir = Some (fr_chan DL fr0, fn, fr_bid DL fr0)) /\
+    forall c f b, In (c, f, b) (rx_calls sub dir) ->
+      c = fr_chan DL fr0 /\ 0 <= f < 4294967296 /\
+      exists fr, trx_frame L f = FrOk fr /\ fr_chan DL fr = c /\ fr_bid DL fr = b.
+Proof. exact rx_calls_owned. Qed.
+Print Assumptions c11_rx_calls_are_layout_frames.
+
+(* the complete case analysis of one burst (four theorems, hypotheses exhaustive). First the main case: the channel that owns frame fn
+   has a handler and an active state that has processed a frame, and 1 .. period frames elapsed since tdma.last_proc: the handler gets
+   a dummy burst for EXACTLY the frames of the walk last_proc+1, .., fn-1 (elapsed - 1 increments) that the layout gives to this
+   channel, in order, each with the burst id of its row, and then the burst itself; nothing else is called *)
+Theorem c11_rx_substitutes_exactly : forall L s fn fr st,
+  In L tx_layouts -> ly_cfg L <> tx_GSM_PCHAN_NONE -> 0 <= fn < 4294967296 -> trx_frame L fn = FrOk fr ->
+  desc_has_handler DL (fr_chan DL fr) = true -> find_st (fr_chan DL fr) s = Some st -> cs_active st = true ->
+  cs_nproc st <> 0 -> 0 < rx_elapsed fn (cs_last st) <= ly_period L ->
+  let c := fr_chan DL fr in
+  let sub := map (fun f => (c, f, dl_bid_at L f))
+                 (filter (fun f => trx_owns L DL c f) (fn_walk (Z.to_nat (rx_elapsed fn (cs_last st) - 1)) (cs_last st))) in
+  rx_burst L s fn = RxOk 0 (fr_bid DL fr) sub (Some (c, fn, fr_bid DL fr))
+                         (set_st c (st_after_direct (st_after_subst st sub) fn) s).
+Proof. exact rx_substitutes. Qed.
+Print Assumptions c11_rx_substitutes_exactly.
+
+(* ... first burst of the channel (num_proc = 0, -EAGAIN inside), the same frame again, or more than one period elapsed (-EIO inside):
+   only the burst itself goes to the handler *)
+Theorem c11_rx_direct_only : forall L s fn fr st,
+  In L tx_layouts -> ly_cfg L <> tx_GSM_PCHAN_NONE -> 0 <= fn < 4294967296 -> trx_frame L fn = FrOk fr ->
+  desc_has_handler DL (fr_chan DL fr) = true -> find_st (fr_chan DL fr) s = Some st -> cs_active st = true ->
+  cs_nproc st = 0 \/ rx_elapsed fn (cs_last st) = 0 \/ rx_elapsed fn (cs_last st) > ly_period L ->
+  rx_burst L s fn = RxOk 0 (fr_bid DL fr) [] (Some (fr_chan DL fr, fn, fr_bid DL fr))
+                         (set_st (fr_chan DL fr) (st_after_direct st fn) s).
+Proof. exact rx_direct_only. Qed.
+Print Assumptions c11_rx_direct_only.
+
+(* ... a burst older than the last processed frame: dropped with -EALREADY (-114), no handler call, no state change *)
+Theorem c11_rx_dropped : forall L s fn fr st,
+  In L tx_layouts -> ly_cfg L <> tx_GSM_PCHAN_NONE -> 0 <= fn < 4294967296 -> trx_frame L fn = FrOk fr ->
+  desc_has_handler DL (fr_chan DL fr) = true -> find_st (fr_chan DL fr) s = Some st -> cs_active st = true ->
+  cs_nproc st <> 0 -> rx_elapsed fn (cs_last st) < 0 ->
+  rx_burst L s fn = RxOk (-114) (fr_bid DL fr) [] None s.
+Proof. exact rx_dropped. Qed.
+Print Assumptions c11_rx_dropped.
+
+(* ... a frame of a channel without handler (IDLE), without channel state or not active: no handler call, no state change
+   (return code 0 for an inactive channel, -ENODEV = -19 otherwise) *)
+Theorem c11_rx_no_call : forall L s fn fr,
+  In L tx_layouts -> ly_cfg L <> tx_GSM_PCHAN_NONE -> 0 <= fn < 4294967296 -> trx_frame L fn = FrOk fr ->
+  desc_has_handler DL (fr_chan DL fr) = false \/ st_active s (fr_chan DL fr) = false ->
+  exists rc, rx_burst L s fn = RxOk rc (fr_bid DL fr) [] None s /\ (rc = 0 \/ rc = -19).
+Proof. exact rx_no_call. Qed.
+Print Assumptions c11_rx_no_call.
+
+(* reading the two theorems above on valid frame numbers (0 .. 2715647): elapsed is the forward distance (fn - last_proc) modulo the
+   hyperframe, taken as negative from half a hyperframe on; the walk is last_proc+1, last_proc+2, .. modulo the hyperframe - so the
+   substituted frames are the frames strictly between last_proc and fn; and because every period divides 2715648 the row of a frame
+   number continues through the wrap 2715647 -> 0 *)
+Theorem c11_rx_elapsed_valid : forall fn lp, 0 <= fn < 2715648 -> 0 <= lp < 2715648 ->
+  rx_elapsed fn lp = let e := (fn - lp) mod 2715648 in if e <? 1357824 then e else e - 2715648.
+Proof. exact rx_elapsed_valid. Qed.
+Print Assumptions c11_rx_elapsed_valid.
+
+Theorem c11_fn_walk_frames : forall n f, 0 <= f < 2715648 ->
+  length (fn_walk n f) = n /\ forall k, (k < n)%nat -> nth k (fn_walk n f) 0 = (f + 1 + Z.of_nat k) mod 2715648.
+Proof. exact fn_walk_spec. Qed.
+Print Assumptions c11_fn_walk_frames.
+
+Theorem c11_period_divides_hyperframe : forall L x, In L tx_layouts -> ly_cfg L <> tx_GSM_PCHAN_NONE ->
+  2715648 mod ly_period L = 0 /\ (x mod 2715648) mod ly_period L = x mod ly_period L.
+Proof. exact hyper_rows. Qed.
+Print Assumptions c11_period_divides_hyperframe.
+
+(* uplink: l1sched_pull_burst() reads frames[fn % period] inside the table, reports that row's ul_bid in br->bid and calls the tx
+   handler of that row's ul_chan - only that one, and only when it has a handler and an active channel state *)
+Theorem c11_pull_burst_row : forall L s fn, In L tx_layouts -> ly_cfg L <> tx_GSM_PCHAN_NONE -> 0 <= fn < 4294967296 ->
+  exists fr, trx_frame L fn = FrOk fr /\
+    tx_pull L s fn = TxOk (fr_bid UL fr)
+                          (if desc_has_handler UL (fr_chan UL fr) && st_active s (fr_chan UL fr) then [fr_chan UL fr] else []).
+Proof. exact tx_pull_spec. Qed.
+Print Assumptions c11_pull_burst_row.
+
+(* l1sched_handle_rx_probe() reads frames[fn % period] inside the table: 0 and the ACTIVE flag (1) or-ed in for an active state of the
+   row's dl_chan, -ENODEV (-19) when that channel has no handler or no state *)
+Theorem c11_rx_probe_row : forall L s fn fl, In L tx_layouts -> ly_cfg L <> tx_GSM_PCHAN_NONE -> 0 <= fn < 4294967296 ->
+  exists fr, trx_frame L fn = FrOk fr /\
+    rx_probe L s fn fl =
+      match (if desc_has_handler DL (fr_chan DL fr) then find_st (fr_chan DL fr) s else None) with
+      | Some st => PrOk 0 (if cs_active st then Z.lor fl 1 else fl)
+      | None => PrOk (-19) fl
+      end.
+Proof. exact rx_probe_spec. Qed.
+Print Assumptions c11_rx_probe_row.
+
+(* both depend on fn through fn mod period only (the correspondence runs them over whole periods) *)
+Theorem c11_pull_probe_periodic : forall L s fl x y, 0 < ly_period L -> 0 <= x < 4294967296 -> 0 <= y < 4294967296 ->
+  x mod ly_period L = y mod ly_period L -> tx_pull L s x = tx_pull L s y /\ rx_probe L s x fl = rx_probe L s y fl.
+Proof. exact tx_probe_periodic. Qed.
+Print Assumptions c11_pull_probe_periodic.
+
+(* the main case once more, read on valid frame numbers only (both inside the hyperframe): with d = (fn - last_proc) mod 2715648 and
+   0 < d <= period the substituted frames are exactly those of last_proc + 1, .., last_proc + d - 1 (mod 2715648; last_proc + d = fn)
+   that the layout gives to the channel, in order, each with the burst id of its row *)
+Theorem c11_rx_substitutes_between : forall L s fn fr st,
+  In L tx_layouts -> ly_cfg L <> tx_GSM_PCHAN_NONE -> 0 <= fn < 2715648 -> trx_frame L fn = FrOk fr ->
+  desc_has_handler DL (fr_chan DL fr) = true -> find_st (fr_chan DL fr) s = Some st -> cs_active st = true ->
+  cs_nproc st <> 0 -> 0 <= cs_last st < 2715648 ->
+  let d := (fn - cs_last st) mod 2715648 in
+  0 < d <= ly_period L ->
+  let c := fr_chan DL fr in
+  let sub := map (fun f => (c, f, dl_bid_at L f))
+                 (filter (fun f => trx_owns L DL c f) (map (fun k => (cs_last st + k) mod 2715648) (range 1 d))) in
+  rx_burst L s fn = RxOk 0 (fr_bid DL fr) sub (Some (c, fn, fr_bid DL fr))
+                         (set_st c (st_after_direct (st_after_subst st sub) fn) s).
+Proof. exact rx_substitutes_between. Qed.
+Print Assumptions c11_rx_substitutes_between.
